@@ -188,6 +188,9 @@ func runWorker(chk *Check, tier string, shard, n int, resume, only int64, skip [
 	cmd.Env = append(append(os.Environ(), "GOMAXPROCS=2", "GOMEMLIMIT=3GiB", "GOTRACEBACK=single", "VERIF_HASH_SEED="+HashSeed(),
 		// race-instrumented drivers (E2): reports go to a log the worker turns into failures; they must not kill it
 		"GORACE=halt_on_error=0 exitcode=0 history_size=5 log_path="+raceLog, "VERIF_RACE_LOG="+raceLog), env...)
+	if chk.EnvFor != nil {
+		cmd.Env = append(cmd.Env, chk.EnvFor(tier, roundOf(env), shard)...)
+	}
 	if fc := os.Getenv("VERIF_FROZEN_CONCURRENCY"); fc != "" {
 		cmd.Env = append(cmd.Env, "FROZEN_CONCURRENCY="+fc)
 	}
